@@ -35,6 +35,11 @@ def jsonable(x, depth=0):
         return bool(x)
     if isinstance(x, bytes):
         return x.decode('latin1')
+    if hasattr(x, 'unit') and hasattr(x, 'value') and not isinstance(x, (str, bytes)):
+        try:
+            return {'value': jsonable(np.asarray(x.value), depth + 1), 'unit': str(x.unit)}
+        except Exception:
+            return repr(x)[:300]
     if isinstance(x, np.ndarray):
         if x.size > 64:
             return {'shape': list(x.shape), 'dtype': str(x.dtype),
@@ -44,8 +49,6 @@ def jsonable(x, depth=0):
         return {str(k): jsonable(v, depth + 1) for k, v in list(x.items())[:64]}
     if isinstance(x, (list, tuple)):
         return [jsonable(v, depth + 1) for v in list(x)[:64]]
-    if hasattr(x, 'unit') and hasattr(x, 'value'):
-        return {'value': jsonable(np.asarray(x.value), depth + 1), 'unit': str(x.unit)}
     return repr(x)[:300]
 
 
